@@ -250,11 +250,9 @@ namespace Pistache::Http::Header
             os << directiveString(d);
             if (hasDelta(d))
             {
-                auto delta = d.delta();
-                if (delta.count() > 0)
-                {
-                    os << "=" << delta.count();
-                }
+                // always written: the reader requires delta-seconds after a timed
+                // directive, so "max-age=0" must not be abbreviated to "max-age"
+                os << "=" << d.delta().count();
             }
 
             if (i < directives_.size() - 1)
